@@ -181,7 +181,7 @@ def run(tier, seed):
     naming_note = None
     if overrides:
         naming_note = f"{len(overrides)} union branches are named differently from the documented naming; variants renamed to the observed names"
-        common.log(naming_note)
+        common.log(naming_note + ": " + json.dumps([[list(k), v] for k, v in list(overrides.items())[:6]]))
         dg.RENAME_OVERRIDES.clear()
         dg.RENAME_OVERRIDES.update(overrides)
         gen_all()
